@@ -97,13 +97,12 @@ class Jacobi(da.Solver):
         #   )
         # To reduce computations, the expression is mildly optimized.
 
-        # Precompute constant expressions
-        if not hasattr(self, "const_diag"):
-            self.const_diag = self._diag(h)
-        if not hasattr(self, "const_diag_scaled"):
-            self.const_diag_scaled = np.divide(
-                self.const_diag, self.diffusion_coeff / h**2
-            )
+        # Precompute constant expressions. NOTE: They depend on the mesh diameter and the
+        # (updatable) parameters, and thus must not be reused from previous calls.
+        self.const_diag = self._diag(h)
+        self.const_diag_scaled = np.divide(
+            self.const_diag, self.diffusion_coeff / h**2
+        )
         rhs_scaled = np.divide(rhs, self.const_diag)
 
         # Split the tolerance based part to avoid unnecessary boolean evaluation
